@@ -794,7 +794,33 @@ func (p *Prog) bulkListWriter(fn *ssa.Function) (*bulkWriter, bool) {
 }
 
 func (p *Prog) encoderTrace(st *packetState, fill *ssa.Function) ([]layoutEvent, int64, string) {
+	evs, _, rs, _, why := p.traceRun(st, fill, []sv{{k: 'p', addr: st.Recv}, {k: 's', i: 0, addr: "REAL"}, {k: 'i', i: 0}}, false)
+	if why != "" {
+		return nil, 0, "cannot evaluate the encoder: " + why
+	}
+	return evs, rs[0].i, ""
+}
+
+// traceRun evaluates entry on the packet state with the wire primitives observed.  With anyBuffer the emissions into
+// every real (non-nil) buffer are recorded, each with the buffer it went to (bufs), and Write calls on the recording
+// writer "WRITER" are collected (writes): that is how a WriteTo is compared with the encoder.
+func (p *Prog) traceRun(st *packetState, entry *ssa.Function, entryArgs []sv, anyBuffer bool) ([]layoutEvent, []string, []sv, []sv, string) {
+	isReal := func(b sv) bool {
+		if anyBuffer {
+			return b.k == 's' && b.addr != "" && !b.b
+		}
+		return b.addr == "REAL"
+	}
+	var bufs []string
+	var writes []sv
 	ctx := p.newSym(p.globalInput())
+	if anyBuffer {
+		ctx.writeFails = p.cache["writefails"] != nil
+		ctx.writeHook = func(c *symCtx, data sv) bool {
+			writes = append(writes, data)
+			return true
+		}
+	}
 	for k, v := range st.Mem {
 		ctx.mem[k] = v
 	}
@@ -806,9 +832,11 @@ func (p *Prog) encoderTrace(st *packetState, fill *ssa.Function) ([]layoutEvent,
 	ctx.hook = func(c *symCtx, callee *ssa.Function, args []sv) ([]sv, bool, bool) {
 		// a verified bulk writer of a byte list: one one-byte item per element, in order
 		if bw, ok := p.bulkListWriter(callee); ok && inPrim == 0 {
-			if bb, _, _, _ := emissionsOf(p, callee); bb == nil || paramIndex(callee, bb) >= len(args) || args[paramIndex(callee, bb)].addr != "REAL" {
+			bb, _, _, _ := emissionsOf(p, callee)
+			if bb == nil || paramIndex(callee, bb) >= len(args) || !isReal(args[paramIndex(callee, bb)]) {
 				return nil, false, true // a dry run: evaluated like any other function, nothing is emitted
 			}
+			bulkBuf := args[paramIndex(callee, bb)].addr
 			inPrim++
 			saved := c.hook
 			rs, okE := c.evalPure(callee, args, nil, 1)
@@ -837,10 +865,11 @@ func (p *Prog) encoderTrace(st *packetState, fill *ssa.Function) ([]layoutEvent,
 					val = sv{k: 'u'}
 				}
 				evs = append(evs, layoutEvent{Op: "fill", Wire: typeStr(bw.elem), Kind: "byte", Src: ep, Val: val, Width: 1, Pos: p.Pos(callee.Pos())})
+				bufs = append(bufs, bulkBuf)
 			}
 			return rs, true, true
 		}
-		if !isWirePrimitive(callee) || inPrim > 0 || len(args) < 3 || args[1].addr != "REAL" {
+		if !isWirePrimitive(callee) || inPrim > 0 || len(args) < 3 || !isReal(args[1]) {
 			return nil, false, true
 		}
 		// a wire primitive is a method of a type with a recognised wire kind; a list type that merely loops over
@@ -873,13 +902,14 @@ func (p *Prog) encoderTrace(st *packetState, fill *ssa.Function) ([]layoutEvent,
 			ev.Src = args[0].addr
 		}
 		evs = append(evs, ev)
+		bufs = append(bufs, args[1].addr)
 		return rs, true, true
 	}
-	rs, ok := ctx.evalPure(fill, []sv{{k: 'p', addr: st.Recv}, {k: 's', i: 0, addr: "REAL"}, {k: 'i', i: 0}}, nil, 0)
+	rs, ok := ctx.evalPure(entry, entryArgs, nil, 0)
 	if !ok {
-		return nil, 0, "cannot evaluate the encoder: " + ctx.why
+		return nil, nil, nil, nil, ctx.why
 	}
-	return evs, rs[0].i, ""
+	return evs, bufs, rs, writes, ""
 }
 
 // ---------- decoder replay ----------
